@@ -298,7 +298,7 @@ public:
         } else if (thorough && rng.chance(250)) { o.max_n = 24; o.max_m = 60; }
         else { o.max_n = 9; o.max_m = 36; }
         o.core_sat_pm = 40;
-        if (p == "C04") { o.boundary_pm = prop == "C07" ? 30 : 6; o.boundary_max_n = 129; o.dense_pm = prop == "C07" ? 3 : 8; }   // dense: hundreds of candidates / cycles per rank
+        if (p == "C04") { o.boundary_pm = prop == "C07" ? 30 : 6; o.boundary_max_n = 129; o.dense_pm = prop == "C07" ? 3 : 8; o.mid_pm = 120; o.two_level_pm = 150; }   // dense: hundreds of candidates / cycles per rank
         gen::GGraph g = gen::gen_graph(rng, o);
         cs["graph"] = gen::to_json(g);
         cfg["P"] = P; cmin["P"] = 1;
@@ -325,7 +325,7 @@ public:
             cs["entries"] = es;
             cs["xentry"] = all[rng.below(all.size())];
             cs["xform"] = xf::generate(rng, g, tier == "big" ? 60 : 9);
-        } else cs["entry"] = MPI_ENTRIES[rng.below(5)];
+        } else { cs["entry"] = MPI_ENTRIES[rng.below(5)]; if (g.family == "mid" && rng.chance(600)) cs["entry"] = "signed_mpi"; }   // phases with 2..n-1 signed edges spread over the ranks
         cs["gen_prop"] = p;
         return cs;
     }
